@@ -394,7 +394,7 @@ fn main() {
     h.extra("types", serde_json::json!(ents.iter().map(|e| format!("{} ({} x {} bit)", e.name, e.n, e.width)).collect::<Vec<_>>()));
     let n = h.n(3_000_000, 60_000_000);
     let miri = std::env::var("PV_MIRI").is_ok();
-    let n = if miri { 300 } else { n };
+    let n = if miri { 120 } else { n };
     h.prop(
         "cast_forms",
         n,
